@@ -51,9 +51,9 @@ def encodeToGroupFromUniform (u : Bytes) : Pt L4 :=
 
 /-- body of `HashToGroup` after the expander call -/
 def hashToGroupFromUniform (u : Bytes) : Pt L4 :=
-  let q0 := Curve.sswu F (Hand.Fp.hashToFieldElement (u.take 48))
-  let q1 := Curve.sswu F (Hand.Fp.hashToFieldElement ((u.drop 48).take 48))
-  Curve.isogeny F (Curve.addAffine3Iso2 F q0 q1)
+  let q0 := Curve.isogeny F (Curve.sswu F (Hand.Fp.hashToFieldElement (u.take 48)))
+  let q1 := Curve.isogeny F (Curve.sswu F (Hand.Fp.hashToFieldElement ((u.drop 48).take 48)))
+  Hand.Element.add F q0 (some q1)
 
 def encodeToGroup (H : Bytes → Bytes) (input dst : Bytes) : Option (Pt L4) :=
   (expandXMD H input dst 48).map encodeToGroupFromUniform
